@@ -358,6 +358,12 @@ def run(ctx, rep):
         b = _get(F, rep, "C06.end", path)
         if b is not None:
             rep.check("C06.end", "%s reports InvalidSeek when the stream ends before the target" % path, len(agg_sites(b, "Error", "InvalidSeek")) >= 1, loc_of(b))
+            # no success exit that bypasses the decoder: every Ok(()) of the front-end follows a successful Decoder::seek
+            pfs = ok.path_facts(b)
+            bypass = [b.loc(s_["sp"]) for bi, s_ in agg_sites(b, "std::result::Result", "Ok") if s_["d"]["l"] == 0 and not s_["d"]["p"] and pfs.get(bi, TOP) is not TOP and
+                      not fact_match(pfs.get(bi, TOP), "call-ok", r"decode::Decoder::seek$")]
+            rep.check("C06.state", "%s: every success exit follows a successful Decoder::seek" % path, not bypass, loc_of(b), "",
+                      "%s can report success without repositioning the decoder (%s): a shortcut that trusts the buffered data's alignment / position" % (path, bypass))
     from rules import castlib
     rep.floor("C06.cast", "narrowing casts inspected", castlib.cast_audit(ctx, rep, "C06", ['decode.rs']), 1)
     from rules import iolib
